@@ -3,11 +3,11 @@ from vcommon import *
 import scen_common, prop_mu_family
 
 PID = "C02"
-PROP_V = ["Props/Properties_C02.v", "Props/Properties_C02b.v", "Props/Properties_C02c.v", "Props/Properties_C06x.v"]
+PROP_V = ["Props/Properties_C02.v", "Props/Properties_C02b.v", "Props/Properties_C02c.v", "Props/Properties_C06x.v", "Props/Properties_C04x.v"]
 GEN_MODULES = ["Consts", "Sites"]
-FLOW_FILES = ['mu.c', 'mu_wait.c', 'common.c', 'nsync_semaphore_futex.c']
+FLOW_FILES = ['mu.c', 'mu_wait.c', 'common.c', 'nsync_semaphore_futex.c', 'cv.c']
 REPLAY_HINT = "VRT_SEED=<seed> [env] _work/h/<scenario>; a STUCK report lists the sleeping threads and the last steps"
-PARTIAL = ["the hand-off theorems are over MuModel / MuWaitModel, i.e. WITHOUT condition-variable waiters transferred onto the mutex queue: over the mutex + cv wrapper (MuXferModel) only exclusion and the queue / MU_WAITING invariants are established (Properties_C01x); the hand-off invariant lifted to that wrapper is in progress (Properties_C04x when present)",
+PARTIAL = ["hand-off WITH condition-variable waiters transferred onto the mutex queue: Properties_C04x over MuXferModel (C04x_handoff_all_states, C04x_holder_is_responsible, C04x_last_holder_must_scan, C04x_no_lost_transfer_full: MuProof3's invariant lifted to the mutex + cv wrapper); a single model containing mu_wait.c AND cv.c on one mutex does not exist (MuWaitModel and MuXferModel each extend MuModel on one side)",
            "hand-off for the mutex WITH conditional critical sections (MuWaitModel, repaired code): Properties_C06x.C06_sleeper_faces_holder and C06_handoff: in every "
            "reachable quiescent world every thread asleep in nsync_mu_lock / nsync_mu_rlock / nsync_mu_wait faces a mutex that some thread still holds (or, for a "
            "conditional waiter, has a false condition); the invariant behind it (MU_DESIG_WAKER implies an agent; MU_WAITING set while the queue is non-empty; "
